@@ -86,6 +86,29 @@ theorem rstep_cut_noop (cfg : RCfg) (s : RR) (hp : s.phase ≠ .reading) (d : Li
   | stopped => rfl
   | top => simp only []; split <;> rfl
 
+theorem rstep_ctx_noop (cfg : RCfg) (s : RR) (hp : s.phase ≠ .reading) (d : List Rec) :
+    rstep cfg s (.ctxCanceled d) = s := by
+  unfold rstep
+  cases h : s.phase with
+  | reading => exact absurd h hp
+  | stopped => rfl
+  | top => simp only []; split <;> rfl
+
+/-- a prefix (by messages) of a good round is an initial segment of the log from the conn offset -/
+theorem goodcut_take {log : List Rec} {q off' : Int} {d : List Rec}
+    (f1 : ∀ r ∈ d, r ∈ log ∧ q ≤ r.1 ∧ r.1 < off') (f2 : ∀ r ∈ log, q ≤ r.1 → r.1 < off' → r ∈ d)
+    (f3 : d.Pairwise (fun a b => a.1 < b.1)) (k : Nat) : GoodCut log q (d.take k) := by
+  refine ⟨f3.sublist (List.take_sublist k d), fun r hr => ⟨(f1 r (List.mem_of_mem_take hr)).1, (f1 r (List.mem_of_mem_take hr)).2.1⟩, ?_⟩
+  intro r hrl x hx h1 h2
+  have hxd := List.mem_of_mem_take hx
+  have hrd : r ∈ d := f2 r hrl h1 (by have := (f1 x hxd).2.2; omega)
+  rw [← List.take_append_drop k d] at hrd f3
+  rw [List.mem_append] at hrd
+  rcases hrd with h | h
+  · exact h
+  · have := (List.pairwise_append.mp f3).2.2 x hx r h
+    omega
+
 /-- the computed events are `Good` (or ignored by the loop in its current state) -/
 theorem world_good (cfg : RCfg) (items : List Item) (nb : Int) (hnb : 0 ≤ nb) (hwf : LWF nb items) {s : RR}
     (h : RInv (allRecords items) s) (x : Env) (hx : x.ok items) :
@@ -127,6 +150,7 @@ theorem world_good (cfg : RCfg) (items : List Item) (nb : Int) (hnb : 0 ≤ nb) 
     · rename_i heq; cases heq
     · rename_i heq; cases heq
     · rename_i heq; cases heq
+    · rename_i heq; cases heq
     · rename_i first last heq
       cases heq
       simpa [Env.ok] using hx
@@ -135,7 +159,15 @@ theorem world_good (cfg : RCfg) (items : List Item) (nb : Int) (hnb : 0 ≤ nb) 
   | sleepCancel => left; simp [worldEvent, Good]
   | initFail oor => left; simp [worldEvent, Good]
   | ioErr => left; simp [worldEvent, Good]
-  | ctxCanceled => left; simp [worldEvent, Good]
+  | canceled b hwm e k =>
+    by_cases hr : s.phase = .reading
+    · left
+      simp only [worldEvent, serve, Good]
+      rw [fetch_round_pull items nb hnb hwf hwm s.connOff (hq hr) e _]
+      obtain ⟨f1, f2, f3, _, _⟩ := fetch_round_gen items nb hnb hwf hwm s.connOff (hq hr) e
+        (serveBudget (dropBefore s.connOff items) b)
+      exact goodcut_take f1 f2 f3 k
+    · right; simp only [worldEvent]; exact rstep_ctx_noop cfg s hr _
   | unknownCodec => left; simp [worldEvent, Good]
 
 /-- the computed events keep the loop invariant -/
